@@ -459,4 +459,28 @@ def print17 (bits : Nat) : List Char :=
   let body := if e ≥ 0 then fmtG printDigits (m <<< e.toNat) 1 else fmtG printDigits m (2 ^ (-e).toNat)
   if neg then '-' :: body else body
 
+/-! ## `number_to_string_b` (pp.c): what `string`, `describe`, `%v`, `%q`, `%p`, `print`, `pp` use for numbers -/
+
+/-- `x == floor(x)` for the finite double m·2^e -/
+def isIntValued (m : Nat) (e : Int) : Bool := e ≥ 0 || m % 2 ^ (-e).toNat = 0
+
+/-- the integer |x| when x is integer-valued -/
+def intValue (m : Nat) (e : Int) : Nat := if e ≥ 0 then m <<< e.toNat else m >>> (-e).toNat
+
+/-- libc `snprintf("%.0f", x)` for an integer-valued x.  NAMED ASSUMPTION `libc_fixed0_exact`: libc prints the exact
+    decimal expansion of an integer-valued double (compared with the implementation on every run, op `pint`/`pstr`). -/
+def printFixed0 (neg : Bool) (v : Nat) : List Char := (if neg then ['-'] else []) ++ Nat.toDigits 10 v
+
+/-- `number_to_string_b` for a finite double given by its 64-bit pattern: "0" for ±0, `%.0f` inside the integer window
+    (`x == floor(x) && x <= JANET_INTMAX_DOUBLE && x >= JANET_INTMIN_DOUBLE`), `%.<DBL_DIG>g` otherwise -/
+def numberToString (bits : Nat) : List Char :=
+  let neg := bits ≥ 0x8000000000000000
+  let (m, e) := decodeBits (bits % 0x8000000000000000)
+  if m = 0 then ['0']
+  else if isIntValued m e ∧ (if neg then intValue m e ≤ intMinDoubleAbs else intValue m e ≤ intMaxDouble) then
+    printFixed0 neg (intValue m e)
+  else
+    let body := if e ≥ 0 then fmtG dblDig (m <<< e.toNat) 1 else fmtG dblDig m (2 ^ (-e).toNat)
+    if neg then '-' :: body else body
+
 end JanetModel.Strtod
